@@ -318,59 +318,49 @@ def rule_r3(ctx: Ctx) -> None:
 
 # ------------------------------------------------------------------------------------------------ R4
 def rule_r4(ctx: Ctx) -> None:
+    """Every chooser (choose_production_alternatives / choose_options of every decider) is abstractly interpreted
+    (sa/rules/depthrules._decider_paths: helper methods inlined, comprehension filters, 'a or b' fall-backs, emptiness
+    branches): on every returning path the value is random.choice / choice_weighted of, or an element of, the offered
+    list or a list filtered from it by comprehensions that keep the elements themselves."""
+    from .depthrules import ChoiceOf, FiltV, ListSrc, OrList, ParamV, _decider_paths
+    from ..absint import SeqV
     prog = ctx.prog
     n = 0
     for meth in ("choose_production_alternatives", "choose_options"):
         for f in prog.implementations(DECIDER, meth):
-            offered = "alternatives" if "alternatives" in f.params else None
-            if offered is None:
-                ctx.ob("C01.R4", f, f.node, f"{meth}: offered list parameter", None, "no 'alternatives' parameter")
-                continue
-            # names that denote (sub)lists of the offered alternatives
-            sub = {offered}
-            changed = True
-            while changed:
-                changed = False
-                for a in walk_local(f.node):
-                    if isinstance(a, ast.Assign) and isinstance(a.targets[0], ast.Name) and a.targets[0].id not in sub or \
-                            isinstance(a, ast.Assign) and isinstance(a.targets[0], ast.Name):
-                        nm = a.targets[0].id
-                        v = a.value
-                        okv = False
-                        if isinstance(v, ast.ListComp) and len(v.generators) == 1 and isinstance(v.elt, ast.Name) \
-                                and isinstance(v.generators[0].target, ast.Name) and v.elt.id == v.generators[0].target.id \
-                                and isinstance(v.generators[0].iter, ast.Name) and v.generators[0].iter.id in sub:
-                            okv = True
-                        elif isinstance(v, ast.Name) and v.id in sub:
-                            okv = True
-                        elif isinstance(v, ast.List) and not v.elts:
-                            okv = True  # empty placeholder, refilled below
-                        if okv and nm not in sub:
-                            sub.add(nm)
-                            changed = True
-            # a name is a sublist only if *all* its definitions are
-            for a in walk_local(f.node):
-                if isinstance(a, ast.Assign) and isinstance(a.targets[0], ast.Name) and a.targets[0].id in sub and a.targets[0].id != offered:
-                    v = a.value
-                    good = (isinstance(v, ast.ListComp) and isinstance(v.elt, ast.Name) and isinstance(v.generators[0].iter, ast.Name)
-                            and v.generators[0].iter.id in sub and isinstance(v.generators[0].target, ast.Name) and v.elt.id == v.generators[0].target.id) \
-                        or (isinstance(v, ast.Name) and v.id in sub) or (isinstance(v, ast.List) and not v.elts)
-                    if not good:
-                        sub.discard(a.targets[0].id)
-            for r in walk_local(f.node):
-                if not (isinstance(r, ast.Return) and r.value is not None):
+            outs, _ = _decider_paths(ctx, f)
+            verdict: Optional[bool] = True
+            why = ""
+            k = 0
+            for o in outs:
+                if o.kind == "raise":
                     continue
-                n += 1
-                v = r.value
-                ok = False
-                if isinstance(v, ast.Call) and call_name(v) in ("choice", "choice_weighted") and v.args and isinstance(v.args[0], ast.Name) and v.args[0].id in sub:
-                    ok = True
-                elif isinstance(v, ast.Subscript) and isinstance(v.value, ast.Name) and v.value.id in sub and not isinstance(v.slice, ast.Slice):
-                    ok = True
-                ctx.ob("C01.R4", f, r, f"{f.cls.name if f.cls else ''}.{meth} returns one of the offered alternatives", ok,
-                       "" if ok else f"'{norm(v)[:60]}' is not drawn from (a filtered copy of) the '{offered}' it was offered: a production "
-                                     f"that is not registered for the requested type can be returned")
-    ctx.floor("C01.R4", n, 7, "chooser return statements")
+                k += 1
+                v = o.value
+                ok: Optional[bool]
+                if o.kind == "return" and isinstance(v, ChoiceOf):
+                    parts = v.lst.parts if isinstance(v.lst, OrList) else [v.lst]
+                    if all(isinstance(p_, (ListSrc, FiltV)) or (isinstance(p_, SeqV)) for p_ in parts):
+                        ok = True
+                    else:
+                        ok = False
+                        why = (f"'{norm(v.node)[:60]}' is not drawn from (a filtered copy of) the alternatives it was offered: a production that "
+                               f"is not registered for the requested type can be returned")
+                elif o.kind == "return" and isinstance(v, (ListSrc, FiltV)):
+                    ok, why = False, "the chooser returns a list of alternatives, not one of them"
+                elif o.kind == "return" and isinstance(v, ParamV):
+                    ok, why = False, f"the chooser returns its parameter '{v.name}', not one of the offered alternatives"
+                else:
+                    ok, why = None, f"a path ends with {o.kind} / a value the interpretation does not relate to the offered list ({v!r})"[:200]
+                if ok is False or (ok is None and verdict is True):
+                    verdict = ok
+                    bad_node = o.node
+                if ok is False:
+                    break
+            n += k
+            ctx.ob("C01.R4", f, f.node, f"{f.cls.name if f.cls else ''}.{meth} returns one of the offered alternatives", verdict if k else None,
+                   why if verdict is not True else "", witness={"paths": k})
+    ctx.floor("C01.R4", n, 7, "interpreted chooser paths")
 
 
 # ------------------------------------------------------------------------------------------------ R5
